@@ -16,12 +16,19 @@ func (server *RunningJob) AwaitStop() {
 func SpawnJob(start func(), shutdown func()) RunningJob {
 	stop := make(chan struct{})
 	closed := make(chan struct{})
+	startReturned := make(chan struct{})
 	go func() {
 		<-stop
 		shutdown()
+		// start may still be on its way to bind its listener; it gives up as soon as it
+		// notices the shutdown, so wait for it before reporting the job as closed
+		<-startReturned
 		close(closed)
 	}()
-	go start()
+	go func() {
+		defer close(startReturned)
+		start()
+	}()
 	return RunningJob{stop: stop, closed: closed}
 }
 
